@@ -1,0 +1,207 @@
+//go:build verif
+
+// Contracts for the verifier in /verif (govc). Comment-only: no declarations.
+
+package util
+
+// Queue notifiers are closures that signal a channel (waitNonEmtpyQueue / waitEmptyQueue).
+//@ extern dyncall:func() ()
+//@   pure
+
+//@ pred memberU16(s []uint16, v uint16) := exists i :: 0 <= i && i < len(s) && s[i] == v
+
+// representation invariants (what every operation may assume and must re-establish)
+//@ pred inWF(q *InQueue) := (forall k :: 0 <= k && k < len(q.future) ==> q.future[k] != nil)
+//@      && (forall k :: 0 <= k && k < len(q.queueNotifiers) ==> q.queueNotifiers[k] != nil)
+//@ pred outWF(q *OutQueue) := (forall k :: 0 <= k && k < len(q.out) ==> q.out[k] != nil)
+//@      && (forall k :: 0 <= k && k < len(q.queueNotifiers) ==> q.queueNotifiers[k] != nil)
+
+//@ func init
+//@   property C07, C12
+//@   safe
+//@ func init#1
+//@   pure
+//@   trusted "registers the private RR type with miekg/dns; writes no variable of this package"
+//@ property C07, C12
+//@ pkginv ErrInvalidSequenceNumber != nil && ErrStreamBroken != nil && ErrDeadlineExceeded != nil && ErrTooLong != nil   :sentinels_defined
+
+// ===================================================================================================
+// InQueue (receiver side)
+
+//@ func (q *InQueue) HasData
+//@   property C07, C17
+//@   pure
+//@   ensures result == q.queueHasData
+
+//@ func (q *InQueue) checkQueueHasAny
+//@   property C07, C17, C12
+//@   safe
+//@   terminates
+//@   requires inWF(q)
+//@   modifies q.queueHasData, q.queueNotifiers
+//@   ensures q.queueHasData == (len(q.in) > 0)                       :flag_tracks_buffer
+//@   ensures inWF(q)
+
+//@ func (q *InQueue) isAcked
+//@   property C07, C12
+//@   safe
+//@   terminates
+//@   pure
+//@   ensures result == memberU16(q.acked, val)                       :membership
+//@   loop 1 vars iter int, rng []uint16
+//@   loop 1 invariant forall j :: 0 <= j && j < iter ==> rng[j] != val
+
+//@ func (q *InQueue) appendPacket
+//@   property C07, C12
+//@   safe
+//@   terminates
+//@   requires val != nil
+//@   requires val.SeqNo == q.NextSeqNo                                                   :only_expected_packet
+//@   modifies q.in, q.in[*], q.NextSeqNo
+//@   ensures q.NextSeqNo == old(q.NextSeqNo) + 1                                         :seq_advances
+//@   ensures len(q.in) == old(len(q.in)) + len(val.Data)                                 :grows_by_data
+//@   ensures forall i :: 0 <= i && i < old(len(q.in)) ==> q.in[i] == old(q.in[i])        :prefix_kept
+//@   ensures !old(spec_sameref(val.Data, q.in)) ==> (forall i :: 0 <= i && i < len(val.Data) ==> q.in[old(len(q.in))+i] == old(val.Data[i]))   :data_appended
+
+//@ func (q *InQueue) Append
+//@   property C07, C12
+//@   safe
+//@   terminates
+//@   requires inWF(q)
+//@   ensures inWF(q)                                                                                            :wf_kept
+//@   ensures val == nil ==> err == nil && len(q.in) == old(len(q.in)) && q.NextSeqNo == old(q.NextSeqNo)       :nil_ignored
+//@   ensures val != nil && old(memberU16(q.acked, val.SeqNo)) ==> err == nil && len(q.in) == old(len(q.in)) && q.NextSeqNo == old(q.NextSeqNo) && len(q.future) == old(len(q.future))   :duplicate_absorbed
+//@   ensures err != nil ==> len(q.in) == old(len(q.in)) && q.NextSeqNo == old(q.NextSeqNo) && len(q.future) == old(len(q.future))   :rejected_unchanged
+//@   ensures val != nil && !old(memberU16(q.acked, val.SeqNo)) && val.SeqNo != old(q.NextSeqNo) && (uint16(val.SeqNo - old(q.NextSeqNo)) >= 128) ==> err != nil    :outside_window_rejected
+//@   ensures val != nil && !old(memberU16(q.acked, val.SeqNo)) && val.SeqNo != old(q.NextSeqNo) && (uint16(val.SeqNo - old(q.NextSeqNo)) < 128) ==> err == nil && len(q.in) == old(len(q.in)) && q.NextSeqNo == old(q.NextSeqNo) && len(q.future) == old(len(q.future)) + 1 && q.future[len(q.future)-1] == val   :future_stored
+//@   ensures val != nil && !old(memberU16(q.acked, val.SeqNo)) && val.SeqNo == old(q.NextSeqNo) ==> err == nil && len(q.in) >= old(len(q.in)) + len(old(val.Data))   :expected_packet_released
+//@   loop 1 vars added bool
+//@   loop 1 invariant inWF(q)
+//@   loop 1 invariant len(q.in) >= old(len(q.in)) + len(old(val.Data))
+//@   loop 1 invariant len(q.future) <= old(len(q.future))
+//@   loop 1 decreases 2*len(q.future) + boolInt(added)
+//@   loop 2 vars iter int, rng []*Packet
+//@   loop 2 invariant inWF(q) && len(rng) == len(q.future) && (len(rng) > 0 ==> &rng[0] == &q.future[0])
+//@   loop 3 vars i uint16, inWindow bool
+//@   loop 3 invariant uint16(i - q.NextSeqNo) >= 1 && uint16(i - q.NextSeqNo) <= 128
+//@   loop 3 invariant inWindow == (uint16(val.SeqNo - q.NextSeqNo) >= 1 && uint16(val.SeqNo - q.NextSeqNo) < uint16(i - q.NextSeqNo))
+//@   loop 3 decreases int(uint16(q.NextSeqNo + 128 - i))
+
+//@ go func boolInt(b bool) int { if b { return 1 }; return 0 }
+
+//@ func (q *InQueue) Read
+//@   property C07, C17
+//@   safe
+//@   requires inWF(q) && !spec_sameref(p, q.in)
+//@   ensures inWF(q)
+//@   ensures err == nil ==> 0 <= n && n <= len(p) && n <= old(len(q.in)) && (n == len(p) || n == old(len(q.in)))   :count
+//@   ensures err == nil ==> len(q.in) == old(len(q.in)) - n                                                         :consumed
+//@   ensures err == nil ==> (forall i :: 0 <= i && i < n ==> p[i] == old(q.in[i]))                                   :delivered_in_order
+//@   ensures err == nil ==> (forall i :: 0 <= i && i < len(q.in) ==> q.in[i] == old(q.in[n+i]))                      :rest_kept
+//@   ensures err == nil ==> q.queueHasData == (len(q.in) > 0)                                                       :flag_tracks_buffer
+//@   ensures err != nil ==> n == 0 && len(q.in) == old(len(q.in))                                                   :error_reads_nothing
+
+//@ func (q *InQueue) waitNonEmtpyQueue
+//@   property C07
+//@   requires inWF(q)
+//@   ensures inWF(q)
+//@   modifies q.queueNotifiers
+//@   trusted "blocks on a channel until a notifier fires or the deadline passes; scheduling is outside this technique"
+
+// ===================================================================================================
+// OutQueue (sender side)
+
+//@ func (q *OutQueue) checkQueueFull
+//@   property C07, C12
+//@   safe
+//@   terminates
+//@   requires outWF(q)
+//@   modifies q.queueHasData, q.queueNotifiers
+//@   ensures q.queueHasData == (len(q.out) > 0)                      :flag_tracks_queue
+//@   ensures outWF(q)
+
+//@ func (q *OutQueue) waitEmptyQueue
+//@   property C07
+//@   requires outWF(q)
+//@   ensures outWF(q)
+//@   modifies q.queueNotifiers
+//@   trusted "blocks on a channel until a notifier fires or the deadline passes; scheduling is outside this technique"
+
+//@ func (q *OutQueue) cleanAckedChunks
+//@   property C07, C12
+//@   safe
+//@   terminates
+//@   requires outWF(q)
+//@   modifies q.out, q.out[*], q.acked, q.queueHasData, q.queueNotifiers
+//@   ensures outWF(q)                                                                                                        :wf_kept
+//@   ensures len(q.out) <= old(len(q.out))                                                                                   :never_grows
+//@   ensures len(q.acked) <= MaxCachedChunks                                                                                 :ack_window_bounded
+//@   ensures len(q.acked) == imin(old(len(q.acked)), MaxCachedChunks)                                                        :ack_window_size
+//@   ensures forall j :: 0 <= j && j < len(q.acked) ==> q.acked[j] == old(q.acked[len(q.acked) - imin(len(q.acked), MaxCachedChunks) + j])      :keep_newest
+//@   ensures old(len(q.out)) > 0 && !old(memberU16(q.acked, q.out[0].SeqNo)) ==> len(q.out) > 0 && q.out[0] == old(q.out[0])   :unacked_head_stays
+//@   ensures q.queueHasData == (len(q.out) > 0)                                                                              :flag_tracks_queue
+//@   loop 1 vars iter int, rng []uint16
+//@   loop 1 invariant outWF(q) && spec_sameref(q.out, old(q.out))
+//@   loop 1 invariant len(q.out) <= old(len(q.out)) && spec_sameslice(q.acked, old(q.acked)) && len(rng) == len(q.acked) && (len(rng) > 0 ==> &rng[0] == &q.acked[0])
+//@   loop 1 invariant old(len(q.out)) > 0 && !old(memberU16(q.acked, q.out[0].SeqNo)) ==> len(q.out) > 0 && q.out[0] == old(q.out[0]) && q.out[0].SeqNo == old(q.out[0].SeqNo)
+
+//@ go func imin(a, b int) int { if a < b { return a }; return b }
+
+//@ func (q *OutQueue) NextChunk
+//@   property C07, C12
+//@   safe
+//@   terminates
+//@   requires outWF(q)
+//@   ensures outWF(q)
+//@   modifies q.out, q.out[*], q.acked, q.queueHasData, q.queueNotifiers
+//@   ensures result == nil ==> len(q.out) == 0                        :nil_only_when_empty
+//@   ensures result != nil ==> len(q.out) > 0 && result == q.out[0]   :oldest_first
+//@   ensures old(len(q.out)) > 0 && !old(memberU16(q.acked, q.out[0].SeqNo)) ==> result == old(q.out[0])   :unacked_head_is_resent
+
+//@ func (q *OutQueue) UpdateAcked
+//@   property C07, C12
+//@   safe
+//@   terminates
+//@   requires outWF(q)
+//@   ensures outWF(q)
+//@   modifies q.out, q.out[*], q.acked, q.acked[*], q.queueHasData, q.queueNotifiers
+//@   ensures old(memberU16(q.acked, seqNo)) ==> len(q.out) == old(len(q.out)) && len(q.acked) == old(len(q.acked))     :known_ack_is_noop
+//@   ensures len(q.out) <= old(len(q.out))                                                                              :never_grows
+//@   ensures len(q.acked) <= MaxCachedChunks || len(q.acked) == old(len(q.acked))                                       :ack_window_bounded
+//@   ensures !old(memberU16(q.acked, seqNo)) ==> len(q.acked) > 0 && q.acked[len(q.acked)-1] == seqNo                   :newest_ack_recorded
+//@   loop 1 vars iter int, rng []uint16
+//@   loop 1 invariant forall j :: 0 <= j && j < iter ==> rng[j] != seqNo
+
+// The "chunk added" callback re-enters the queue through its own operations (the DNS client sends the
+// chunk and feeds acknowledgements back); it is trusted to keep the representation invariant.
+//@ extern field:github.com/bokysan/socketace/v2/internal/streams/dns/util.OutQueue.OnChunkAdded (q *OutQueue) (err error)
+//@   requires outWF(q)
+//@   modifies q.out, q.out[*], q.acked, q.acked[*], q.queueHasData, q.queueNotifiers, q.queueNotifiers[*]
+//@   ensures outWF(q)
+
+//@ func (q *OutQueue) addChunk
+//@   property C07
+//@   safe
+//@   requires outWF(q)
+//@   ensures outWF(q)
+//@   ensures old(q.OnChunkAdded) == nil ==> err == nil && q.NextSeqNo == old(q.NextSeqNo) + 1 && len(q.out) == old(len(q.out)) + 1     :queued
+//@   ensures old(q.OnChunkAdded) == nil ==> q.out[len(q.out)-1] != nil && q.out[len(q.out)-1].SeqNo == old(q.NextSeqNo) && len(q.out[len(q.out)-1].Data) == len(data) && (len(data) > 0 ==> &q.out[len(q.out)-1].Data[0] == &data[0])   :numbered_in_order
+//@   ensures old(q.OnChunkAdded) == nil ==> (forall k :: 0 <= k && k < old(len(q.out)) ==> q.out[k] == old(q.out[k]))       :older_packets_kept
+
+//@ func (q *OutQueue) Write
+//@   property C07, C12
+//@   safe
+//@   terminates
+//@   requires outWF(q)
+//@   requires mtu > 0                                                                   :positive_fragment_size
+//@   ensures err == nil ==> n == len(b)                                                :all_accepted
+//@   ensures 0 <= n && n <= len(b)
+//@   loop 1 vars b []byte, n int
+//@   loop 1 invariant outWF(q)
+//@   loop 1 invariant 0 <= n && n + len(b) == len(old(b)) && (len(b) > 0 ==> &b[0] == &old(b)[n])
+//@   loop 1 decreases len(b)
+
+// Sequence numbers are compared modulo 2^16; as long as the two ends are less than 2^15 packets apart the
+// 16-bit numbers identify the packets uniquely (used to lift the per-queue contracts to whole streams).
+//@ property C07
+//@ lemma forall s0 k m uint64 :: k < m && m - k < 32768 ==> uint16(s0+k) != uint16(s0+m)      :wrap_distinct
